@@ -6,6 +6,7 @@ pub mod c12;
 pub mod c05;
 pub mod c06;
 pub mod c07;
+pub mod c08;
 pub mod c09;
 pub mod c10;
 pub mod c11;
@@ -34,6 +35,7 @@ pub fn lookup(prop: &str) -> Option<CheckFn> {
         "C05" => Some(c05::check),
         "C06" => Some(c06::check),
         "C07" => Some(c07::check),
+        "C08" => Some(c08::check),
         "C09" => Some(c09::check),
         "C10" => Some(c10::check),
         "C11" => Some(c11::check),
